@@ -249,7 +249,7 @@ def _child(sc, prefix, crash, side, resume):
                 MD.Molecular_Dynamics_Basic.run_from_checkpoint(prefix + ".restart.pt")
             else:
                 mol, md = make_md(sc, prefix)
-                md.run(mol, sc["steps"], seed=sc.get("seed", 1), remove_com=sc.get("remove_com"), reuse_P=sc.get("reuse_P", True))
+                md.run(mol, sc["steps"], seed=sc.get("seed", 1), remove_com=sc.get("remove_com"), reuse_P=sc.get("reuse_P", True), **sc.get("run_kwargs", {}))
         os._exit(0)
     except _SoftCrash:
         os._exit(17)
